@@ -23,6 +23,7 @@ func plans(quick bool) []netsim.CrashPlan {
 		{Name: "flush-1v-second-txs", N: 1, Victim: 0, Flush: true, Heights: 3, Second: true, WithTxs: true},
 		{Name: "flush-4v-victim1-valchange", N: 4, Victim: 1, Flush: true, Heights: 5, ValChange: true},
 		{Name: "flush-4v-victim2-manyrounds", N: 4, Victim: 2, Flush: true, Heights: 3, ManyRounds: true},
+		{Name: "flush-1v-torn-second-txs", N: 1, Victim: 0, Flush: true, Heights: 3, Torn: true, Second: true, WithTxs: true},
 	}
 	if quick {
 		return ps
@@ -34,6 +35,7 @@ func plans(quick bool) []netsim.CrashPlan {
 		ps = append(ps, netsim.CrashPlan{Name: fmt.Sprintf("flush-4v-victim%d-late-txs", v), N: 4, Victim: v, Flush: true, Heights: 4, Late: true, WithTxs: true})
 		ps = append(ps, netsim.CrashPlan{Name: fmt.Sprintf("flush-4v-victim%d-late-votesfirst", v), N: 4, Victim: v, Flush: true, Heights: 4, Late: true, VotesFirst: true})
 	}
+	ps = append(ps, netsim.CrashPlan{Name: "flush-1v-torn-txs", N: 1, Victim: 0, Flush: true, Heights: 4, Torn: true, WithTxs: true})
 	ps = append(ps, netsim.CrashPlan{Name: "flush-1v", N: 1, Victim: 0, Flush: true, Heights: 4, WithTxs: true})
 	ps = append(ps, netsim.CrashPlan{Name: "cache-1v", N: 1, Victim: 0, Flush: false, Heights: 4})
 	ps = append(ps, netsim.CrashPlan{Name: "flush-7v-victim3", N: 7, Victim: 3, Flush: true, Heights: 3})
